@@ -330,12 +330,11 @@ def checks_for(c, r):
                 out.append(f"mcloser tol (ml_tensor (K:=QcF) {D} {ms}) {qc_mat(r['tensor'])}")
                 for x, y in zip(pts, r["fwd"][0]):
                     out.append(f"vcloser tol (happly (K:=QcF) {D} (ml_tensor (K:=QcF) {D} {ms}) {qc_vec(x)}) {qc_vec(y)}")
-                # the generated fact about in-place accumulation into the first member
+                    out.append(f"vcloser tol (ml_spec_linear (K:=QcF) {D} {ms} {qc_vec(x)}) {qc_vec(y)}")
+                # evaluating the composite must leave every member's tensor untouched (and the trace says so)
                 if c["members"]:
-                    first_h = len(r["member_tensors"][0][0]) == D + 1
-                    exp = [first_h and len(c["members"]) > 1] + [False] * (len(c["members"]) - 1)
-                    out.append(cb(r["members_modified"] == exp))
-                    out.append(f"Bool.eqb (gen_ml_overwrites_first {form_of(r['member_tensors'][0], D)}) {cb(first_h)}")
+                    out.append(cb(not any(r["members_modified"])))
+                    out.append(f"negb (gen_ml_overwrites_first {form_of(r['member_tensors'][0], D)})")
         elif c["cls"] == "MultiLevelTransform":
             for j, (x, y) in enumerate(zip(pts, r["fwd"][0])):
                 ys = "[" + "; ".join(qc_vec(mf[0][j]) for mf in r["member_fwd"]) + "]"
@@ -498,15 +497,13 @@ def replay(ctx, data):
 MANIFEST_ENTRY = {
     "text": "Coq theorems (closed under the global context) over every field of characteristic 0, D in {2,3}, arbitrary well-formed oriented grids "
             "and both align_corners flags: (1) tensor() of a freshly constructed instance -- traced from the real constructors/reset_parameters/"
-            "tensor() of every linear class in spatial/linear.py -- is the identity for all classes except HomogeneousTransform, QuaternionRotation, "
-            "RigidQuaternionTransform (refuted with witnesses; (1,0,0,0) shown to be the identity quaternion), equals C07's traced parameter->matrix "
+            "tensor() of every linear class in spatial/linear.py -- is the identity for all 12 classes and admissible dimensions, equals C07's traced parameter->matrix "
             "maps at the default literals; zero fields are the identity; (2) for a linear model transform(points), matrix(), disp (x + disp(x) = T(x)), "
             "points(grid, axes, to_grid, to_axes)/PointSetTransformer and points(axes=WORLD) are one world map re-expressed (composition of the C01 "
             "two-grid maps); dense field on grids with the same cube frame describes that map (other domains/flags refuted); non-rigid: exact on "
             "index-affine fields, resizing == interpolating on same-domain lattices; (3) SequentialTransform.tensor of any number of members (induction) "
-            "= members applied in listed order; MultiLevelTransform: generic branch = x + sum of displacements for any number of members (induction), "
-            "linear branch = sum of the member images (refuted as sum of displacements for >= 2 members; in-place overwrite of the first member generated "
-            "as a fact); (4) ImageTransformer output = image at the source index of T(world(x_j)) for any transform/target/source grids (2-D, 3-D; "
+            "= members applied in listed order; MultiLevelTransform = x + sum of member displacements for any number of members, both the generic loop "
+            "and the linear branch (sum of the member matrices - (k-1) I; inductions), members left unchanged (generated fact); (4) ImageTransformer output = image at the source index of T(world(x_j)) for any transform/target/source grids (2-D, 3-D; "
             "linear T; index-affine image cells); resize-instead-of-interpolate for non-lattice targets refuted. Tie: translator unit Transform "
             "(real spatial/*.py code executed symbolically, structural checks of all argument plumbing) + correspondence (model run in Coq over Qc).",
     "note": "Partial: GenericSpatialTransform by implementation-side search only; non-rigid models exact for index-affine fields only, otherwise by "
